@@ -198,7 +198,39 @@ fn tunnel_cell(g: &mut G, ctx: &RunCtx, cell: u64) -> RunReport {
     RunReport { verdict, shape: tag.clone(), nontrivial: true, stats, sched_tape: out.sched_tape, describe: if ctx.describe { format!("tunnel cell {}: {} expect_ok={}", cell, tag, want_ok) } else { String::new() } }
 }
 
+/// The first TLS exchange of the process is always the same one: a session that adds the fixtures' CA as a
+/// root (both flags off) talks to a peer with a good certificate.  Anything the library keeps for the whole
+/// process and fills on first use is thereby filled by a handshaker *with* an extra root - the cells that
+/// follow (other sessions, no root of their own) show whether it leaks.  Runs once per process, before any
+/// cell, also in a replay process.
+fn warm_up(ctx: &RunCtx) {
+    static WARM: std::sync::Once = std::sync::Once::new();
+    WARM.call_once(|| {
+        let sim = Sim::new(ctx.sim_config());
+        let dip: IpAddr = "10.0.0.7".parse().unwrap();
+        sim.add_host("a.test", vec![dip]);
+        let dlog = Arc::new(Mutex::new(TlsLog::default()));
+        let dseen = Arc::new(Mutex::new(Seen::default()));
+        sim.add_listener(
+            dip,
+            443,
+            ConnectBehaviour::Accept { latency_ns: NS_PER_MS },
+            Some(Box::new(move |i| {
+                let inner = HttpPeer::new(Arc::new(|_r, _c| ok_script("warm")), dseen.clone());
+                Box::new(TlsPeer::new("good", Box::new(inner), dlog.clone(), i.conn))
+            })),
+        );
+        let _ = sim.run(|| {
+            let mut s = attohttpc::Session::new();
+            s.proxy_settings(attohttpc::ProxySettings::builder().build());
+            s.add_root_certificate(cert_of(tlspeer::CA_PEM));
+            s.get("https://a.test/warm-up").send().map(|r| r.status().as_u16()).unwrap_or(0)
+        });
+    });
+}
+
 pub fn scenario(g: &mut G, ctx: &RunCtx) -> RunReport {
+    warm_up(ctx);
     let cell = g.forced(ctx.index.unwrap_or(0), CELLS);
     if cell >= MATRIX {
         return tunnel_cell(g, ctx, cell - MATRIX);
